@@ -16,7 +16,7 @@ CONSTANTS
   MaxRetries = 1
   Alpha <- AlphaOk
   RefreshAlpha <- ROk
-  MaxRecs = 1
+  MaxRecs = 0
   MaxClock = 1
   MaxMeta = 0
   MaxCalls = 0
